@@ -7,7 +7,7 @@ cd "$(dirname "$0")/.."
 mkdir -p soak
 for seed in $(seq $first $last); do
   for p in $props; do
-    VERIF_SEED=$seed ./check $p --tier $tier > soak/$p-$seed.log 2>&1
+    VERIF_SEED=$seed ./check $p --tier $tier --evidence-dir soak/evidence > soak/$p-$seed.log 2>&1
     rc=$?
     echo "seed=$seed $p exit=$rc $(grep -c '^VIOLATION' soak/$p-$seed.log) violations $(grep '^HARNESS-ERROR' soak/$p-$seed.log | head -1 | cut -c1-150)"
     if [ $rc -ne 0 ]; then grep -A1 'oracle=' soak/$p-$seed.log | cut -c1-600; fi
